@@ -35,6 +35,19 @@ def run(prop, tier):
     ncases = sum(sum(1 for _ in open(f)) for f in case_files)
     if ncases == 0:
         raise vlib.ToolError("no cases generated")
+    # how many cases sit exactly on a step of the Remaining Length encoding (written packets only)
+    steps = {129: 127, 131: 128, 16386: 16383, 16388: 16384, 2097155: 2097151, 2097157: 2097152}
+    step_hits = {}
+    if prop == "C01":
+        for f in case_files:
+            for line in open(f):
+                e = json.loads(line)["e"]
+                for x in [e.get("len", 0)] + list(e.get("lens", [])):
+                    if x in steps:
+                        step_hits[str(steps[x])] = step_hits.get(str(steps[x]), 0) + 1
+        missing = [str(v) for v in steps.values() if str(v) not in step_hits]
+        if missing:
+            raise vlib.ToolError("generator no longer reaches remaining length(s) %s" % ",".join(missing))
     shards = 8
     results = []
     def one(args):
@@ -109,6 +122,7 @@ def run(prop, tier):
                 "once per build mode" % cfg["gen"],
         "samples": samples,
         "cases_by_kind": kinds,
+        "cases_on_remaining_length_steps": step_hits,
         "tlc_enumeration_wall_s": round(gen_wall, 1),
         "build_modes": list(modes),
         "fragmented_write_runs_validated": extra_runs,
